@@ -36,6 +36,9 @@ Eval(t, env) == IF t.k = "leaf" THEN IntV(env[t.x])
                 ELSE LET l == Eval(t.l, env) r == Eval(t.r, env) IN
                      IF IsBad(l) THEN l ELSE IF IsBad(r) THEN r ELSE IntOp(t.o, l.v, r.v)
 
+\* value of `r OP= <expression>` for r = 100: the right-hand side is the WHOLE expression
+Compound(v) == [o \in {"+", "-", "*", "/"} |-> IF IsBad(v) THEN v ELSE IntOp(o, 100, v.v)]
+
 TokStr(t) == CASE t.k = "opd" -> t.x [] t.k = "op" -> t.o [] t.k = "lp" -> "(" [] t.k = "rp" -> ")"
 
 Init == /\ case \in CaseSet /\ PInit(Tokens(case))
@@ -45,5 +48,6 @@ Spec == Init /\ [][Next]_vars
 Report == done => PrintT(ToJson([ops |-> case.ops, span |-> case.span,
                                  toks |-> [i \in 1..Len(toks) |-> TokStr(toks[i])],
                                  tree |-> Result,
-                                 vals |-> [i \in 1..Len(Envs) |-> Eval(Result, Envs[i])]]))
+                                 vals |-> [i \in 1..Len(Envs) |-> Eval(Result, Envs[i])],
+                                 cvals |-> [i \in 1..Len(Envs) |-> Compound(Eval(Result, Envs[i]))]]))
 =============================================================================
